@@ -10,6 +10,19 @@
 //   efc_type | efc_id | then, if nisland > 0, the island arrays (see below)
 #include "mjgen.h"
 #include "engine/engine_core_util.h"
+#include <signal.h>
+#include <unistd.h>
+
+// a crash of the implementation is reported with the phase it happened in ("X crash compile" is not
+// attributed to island discovery by the harness)
+static volatile const char* phase = "init";
+static void on_segv(int sig) {
+  (void)sig;
+  const char* a = "X crash "; const char* p = (const char*)phase;
+  fflush(stdout);
+  if (write(1, a, strlen(a)) < 0 || write(1, p, strlen(p)) < 0 || write(1, "\n", 1) < 0) _exit(12);
+  _exit(11);
+}
 
 static void pr(const int* a, int n) { for (int i = 0; i < n; i++) printf("%d ", a[i]); }
 
@@ -68,8 +81,10 @@ static mjSpec* pile_spec(uint64_t seed, int nbody) {
     int nt = mjg_int(r, 3);
     for (int k = 0; k < nt; k++) {
       mjsTendon* t = mjs_addTendon(s, NULL); mjg_name(t->element, "t", k);
-      int nw = 2 + mjg_int(r, 3);
-      for (int w = 0; w < nw; w++) mjs_wrapJoint(t, hinge_names[mjg_int(r, nh)], 0.5 + mjg_u(r));
+      int nw = 2 + mjg_int(r, 3); if (nw > nh) nw = nh;
+      int first = mjg_int(r, nh), stride = 1 + mjg_int(r, 3);      // distinct joints (a joint is wrapped at most once)
+      while (nh % stride == 0 && stride > 1) stride--;
+      for (int w = 0; w < nw; w++) mjs_wrapJoint(t, hinge_names[(first + w * stride) % nh], 0.5 + mjg_u(r));
       if (mjg_chance(r, 0.6)) t->frictionloss = 0.1;
       if (mjg_chance(r, 0.5)) { t->limited = mjLIMITED_TRUE; t->range[0] = -0.001; t->range[1] = 0.001 * mjg_int(r, 2); }
     }
@@ -79,6 +94,7 @@ static mjSpec* pile_spec(uint64_t seed, int nbody) {
 
 int main(void) {
   mjg_install_handlers();
+  signal(SIGSEGV, on_segv); signal(SIGBUS, on_segv); signal(SIGABRT, on_segv);
   char op[8];
   while (scanf("%7s", op) == 1) {
     unsigned long long seed; unsigned feat = 0; int nbody, jac, steps;
@@ -87,7 +103,9 @@ int main(void) {
     else if (op[0] == 'P') { if (scanf("%llu %d %d %d", &seed, &nbody, &jac, &steps) != 4) return 2; s = pile_spec(seed, nbody); }
     else return 2;
     s->option.jacobian = jac ? mjJAC_SPARSE : mjJAC_DENSE;
+    phase = "compile";
     mjModel* m = mj_compile(s, NULL);
+    phase = "run";
     if (!m) { printf("X compile %s\n", mjs_getError(s)); fflush(stdout); mj_deleteSpec(s); continue; }
     mjData* d = mj_makeData(m);
     int ok = 1;
@@ -118,6 +136,18 @@ int main(void) {
           int t = m->dof_treeid[j];
           int seen = 0; for (int q = 0; q < k; q++) if (trees[q] == t) seen = 1;
           if (!seen && k < 64) trees[k++] = t;
+        }
+      }
+      // dense mode: entries of a geom-geom contact row can vanish numerically although the dofs are
+      // structurally in the row (e.g. frictionless contact on a sphere hinged at its centre), so the
+      // trees of the two bodies are added; in sparse mode the row's colind is used as it is
+      if ((!sparse || k == 0) && (d->efc_type[i] == mjCNSTR_CONTACT_FRICTIONLESS || d->efc_type[i] == mjCNSTR_CONTACT_PYRAMIDAL ||
+                                  d->efc_type[i] == mjCNSTR_CONTACT_ELLIPTIC)) {
+        const mjContact* con = d->contact + d->efc_id[i];
+        for (int q = 0; q < 2; q++) if (con->geom[q] >= 0) {
+          int t = m->body_treeid[m->geom_bodyid[con->geom[q]]];
+          int seen = 0; for (int z = 0; z < k; z++) if (trees[z] == t) seen = 1;
+          if (t >= 0 && !seen && k < 64) trees[k++] = t;
         }
       }
       printf("%d %d ", cls, k); pr(trees, k);
